@@ -98,7 +98,7 @@ fn compile_native_asset_for_output(
     ir: &tir::AssetExpr,
 ) -> Result<primitives::Multiasset<primitives::PositiveCoin>, Error> {
     let policy = coercion::expr_into_bytes(&ir.policy)?;
-    let policy = primitives::Hash::from(policy.as_slice());
+    let policy = coercion::bytes_into_hash(policy.as_slice())?;
     let asset_name = coercion::expr_into_bytes(&ir.asset_name)?;
     let amount = coercion::expr_into_number(&ir.amount)?;
     let amount = primitives::PositiveCoin::try_from(amount as u64).unwrap();
@@ -113,7 +113,7 @@ fn compile_native_asset_for_mint(
     is_burn: bool,
 ) -> Result<primitives::Multiasset<primitives::NonZeroInt>, Error> {
     let policy = coercion::expr_into_bytes(&ir.policy)?;
-    let policy = primitives::Hash::from(policy.as_slice());
+    let policy = coercion::bytes_into_hash(policy.as_slice())?;
     let asset_name = coercion::expr_into_bytes(&ir.asset_name)?;
     let amount = coercion::expr_into_number(&ir.amount)?;
 
@@ -412,7 +412,7 @@ fn compile_vote_delegation_certificate(
 ) -> Result<primitives::Certificate, Error> {
     let stake = coercion::expr_into_stake_credential(&x.data["stake"], network)?;
     let drep = coercion::expr_into_bytes(&x.data["drep"])?;
-    let drep = primitives::DRep::Key(drep.as_slice().into());
+    let drep = primitives::DRep::Key(coercion::bytes_into_hash(drep.as_slice())?);
 
     Ok(primitives::Certificate::VoteDeleg(stake, drep))
 }
@@ -657,7 +657,7 @@ fn compile_single_mint_redeemer(
         .first()
         .ok_or(Error::MissingExpression("missing asset".to_string()))?;
     let policy = coercion::expr_into_bytes(&asset.policy)?;
-    let policy = primitives::Hash::from(policy.as_slice());
+    let policy = coercion::bytes_into_hash(policy.as_slice())?;
 
     let out = primitives::Redeemer {
         tag: primitives::RedeemerTag::Mint,
